@@ -59,7 +59,7 @@ def tasks(tier):
                 out.append({"kind": "names", "guard_menu": g, "act_menu": a, "late_kind": late_kind, "quick": quick, "equal": late_kind == "sync" and (g + a) % 2 == 1})
     for fm in range(4):
         for equal in (False, True):
-            out.append({"kind": "attr", "guard_menu": 0, "act_menu": 0, "late_kind": "sync", "quick": quick, "equal": equal, "flag_menu": fm})
+            out.append({"kind": "attr", "guard_menu": 0, "act_menu": 0, "late_kind": "sync", "quick": quick, "equal": equal, "flag_menu": fm, "falsy": fm % 2 == 1})
     return out
 
 
@@ -71,7 +71,7 @@ BOUNDS = {
     "quick": "3-state ring driven by 3 consecutive `go` events; the guard name `ok1` and the inline action `act` provided by each of 7 (2 for act) provider sets "
     "over {machine, model, constructor listener, late listener}; `on_enter_state` and `after_go` provided by 3 sets (machine; model + both listeners; late listener only); the "
     "late listener attached before event 0, 1 or 2, once, twice in one call, or again before the next event; a second instance of the class with its own "
-    "listener must stay silent; guard values symbolic per provider; a guard given as a plain data attribute (None at attachment, re-assigned before each event) on model / listeners; a variant whose listeners all compare equal; variant in which the late listener's methods are coroutine functions on an otherwise sync machine.",
+    "listener must stay silent; guard values symbolic per provider; a guard given as a plain data attribute (None at attachment, re-assigned before each event) on model / listeners; a variant whose listeners all compare equal and are falsy (define __len__ returning 0); variant in which the late listener's methods are coroutine functions on an otherwise sync machine.",
     "thorough": "all 7x7 guard/action provider sets.",
 }
 OUTSIDE = "callables and properties passed by reference (late listeners resolve names only, documented); more than one late listener"
@@ -120,6 +120,9 @@ def run(ctx, params):
             for c in r["listener_classes"]:
                 c.__eq__ = lambda self, other: type(other).__name__.startswith("Listener")
                 c.__hash__ = lambda self: 7
+        if params.get("equal") or params.get("falsy"):
+            for c in r["listener_classes"]:
+                c.__len__ = lambda self: 0  # an empty audit trail / a quota at 0: falsy objects are still listeners
         model = r["model_cls"]()
         l0, l1, l2 = (c() for c in r["listener_classes"])
         objs = {"model": model, "listener0": l0, "listener1": l1}
